@@ -145,6 +145,8 @@ type machine struct {
 	charCache map[string][2]*Term
 	memo      map[string]value
 	fold      map[string]*Term
+	buffers   map[*value]*value
+	onIdle    value
 	permCache map[string][]int
 	smallVars map[string]*inputVar
 	runesMax  int
